@@ -283,6 +283,7 @@ func checkC16(w *Worker) {
 			c.Args = append([]string{"-c", name}, c.Args...)
 		}
 		r := runApp(c)
+		x.w.binMustAgree(x, c, r, "C16|explicit-config-file") // (the binary's HOME is the empty scratch directory: no default file)
 		x.Obs(r.Key())
 		x.Case(fmt.Sprint(how, kind), true)
 		rep := map[string]interface{}{"cmd": c.shell(), "observed": r.String()}
